@@ -73,7 +73,7 @@ static Step make_step(const std::string &op, Rng &r, bool utils_keys = false) {
     if (op == "compare") return mk(op, {R(r), R(r), R(r), R(r), R(r)});
     if (op == "minify") return mk(op, {R(r), R(r)});
     if (op == "dup_deep" || op == "dup_cyclic") return mk(op, {R(r), R(r)});
-    if (op == "hooks") return mk(op, {R(r)});
+    if (op == "hooks" || op == "arm") return mk(op, {R(r)});
     if (op == "poke_nan") return mk(op, {R(r), R(r)});
     return mk(op);
 }
@@ -125,6 +125,7 @@ Plan gen_plan(const std::string &prop, uint64_t seed, int64_t run) {
     } else if (prop == "C07") {
         common_knobs(p, r, 0);
         auto mix = swarm(cat({CREATE, EDIT, REFS, REFS, {{"parse", 4}, {"print", 4}, {"dup", 5}, {"delete", 5}, {"q_key", 1}, {"refuse", 2}, {"add_obj_cs", 4}}}), r);
+        if (r.chance(1, 3)) { p.knobs["faults"] = 1; mix.push_back({"arm", 6}); mix.push_back({"print", 6}); mix.push_back({"parse", 4}); mix.push_back({"dup", 4}); }
         add_steps(p, CREATE, r, 3);
         add_steps(p, mix, r, (int)r.range(5, 60));
     } else if (prop == "C14") {
@@ -132,6 +133,7 @@ Plan gen_plan(const std::string &prop, uint64_t seed, int64_t run) {
         p.knobs["hooks"] = 0;
         int epochs = (int)r.range(2, 4);
         auto mix = swarm(cat({CREATE, EDIT, {{"parse", 6}, {"print", 6}, {"dup", 3}, {"delete", 3}, {"sort", 2}, {"ptr_find", 3}, {"patch_gen", 3}, {"merge_gen", 2}, {"merge_apply", 2}, {"pop", 4}, {"patch_apply", 2}, {"add_ref_arr", 1}, {"add_obj_cs", 1}, {"compare", 1}}}), r);
+        if (r.chance(1, 3)) { p.knobs["faults"] = 1; mix.push_back({"arm", 8}); mix.push_back({"print", 8}); mix.push_back({"parse", 4}); }
         for (int e = 0; e < epochs; e++) {
             p.steps.push_back(make_step("hooks", r));
             add_steps(p, {{"parse", 3}, {"new_object", 1}, {"new_array", 1}}, r, 2, true);
